@@ -163,4 +163,22 @@ func (dht *FullRT) runSubscriber()
   props C14
   modifies *
   ensures [accounted] tagged("wgdone:dht.wg")
+
+# C04 (accelerated client): every value put on the value channel - the local
+# record included - has just been approved by the validator for this key.
+func (dht *FullRT) getValues(ctx context.Context, key string) (<-chan RecvdVal, <-chan *lookupWithFollowupResult)
+  props C04
+  requires dht.bucketSize > 0 && dht.ipDiversityFilterLimit >= 0
+  ghostvar $ok bool = false
+  ghostvar $v []byte = nil
+  chan_inv valCh : $ok && $msg.Val == $v
+  modifies *
+  ghost at call(Validate): $ok = ($ret0 == nil && $arg0 == key); $v = $arg1
+
+funclit 1 in (dht *FullRT) getValues(ctx context.Context, key string) (<-chan RecvdVal, <-chan *lookupWithFollowupResult)
+  props C04
+  ghostvar $ok bool = false
+  ghostvar $v []byte = nil
+  chan_inv valCh : $ok && $msg.Val == $v && $msg.From == p
+  ghost at call(Validate): $ok = ($ret0 == nil && $arg0 == key); $v = $arg1
 @*/
